@@ -35,7 +35,13 @@ def systems(draw, max_looms=2, max_procs=2, max_threads=3, max_cpus=3, models=No
     req = require_for(models)
     streams = []
     pid = 0
-    tid = 100
+    # Numbering: TIDs are unique per process and PIDs per loom only.  One system in three
+    # restarts the TIDs in every process and the PIDs in every loom (the same numbers then
+    # name different threads); the first TID varies so that TIDs of different decimal
+    # width (9/10, 99/100, 99999/100000) meet in one process.
+    restart = draw(st.integers(0, 2)) == 0
+    tid0 = draw(st.sampled_from([100, 100, 7, 97, 998, 99997]))
+    tid = tid0
     use_rank = ranks and draw(st.booleans())
     rank = 0
     nranks = None
@@ -49,8 +55,12 @@ def systems(draw, max_looms=2, max_procs=2, max_threads=3, max_cpus=3, models=No
         cpus = [[i, base + i * stride] for i in range(ncpus)]
         nprocs = draw(st.integers(1, max_procs))
         first = True
+        if restart:
+            pid = 0
         for pi in range(nprocs):
             pid += 1 + draw(st.integers(0, 3))
+            if restart:
+                tid = tid0
             nth = draw(st.integers(min_threads if (li == 0 and pi == 0) else 1, max_threads))
             for ti in range(nth):
                 tid += 1 + draw(st.integers(0, 2))
@@ -205,13 +215,15 @@ class Walk:
             return T.P("II", b.task.id, b.id)
         return T.P("I", b.task.id)
 
-    def close_all(self, unwind=True):
-        """Bring every thread to Dead.  Threads that never started execute on
+    def close_all(self, unwind=True, leave=()):
+        """Bring every thread (but those in `leave`) to Dead.  Threads that never started execute on
         the virtual CPU first; paused threads whose CPU is busy are retried
         after the others have ended."""
         for _round in range(4):
             pending = False
             for th in self.threads():
+                if th in leave:
+                    continue
                 if th.state == R.ST_UNKNOWN:
                     self.legal(th, "OHx", T.P("iiQ", -1, -1, 0))
                 self.close_thread(th, unwind)
@@ -462,7 +474,8 @@ class Profile:
     def __init__(self, kinds, models=None, max_looms=2, max_procs=2, max_threads=3, max_cpus=3,
                  steps=(5, 50), modes=("legal", "legal", "illegal", "noend"), lint=True,
                  marks=0, ranks=False, min_threads=1, breakdown=False, unwind=None, flags=None,
-                 wild_kinds=None):
+                 wild_kinds=None, extra_flags=()):
+        self.extra_flags = tuple(extra_flags)   # appended to the flags whatever lint is
         self.kinds = kinds              # list of kind names (repeat for weight)
         self.models = models            # None = draw; list = fixed; callable(draw) -> list
         self.max_looms, self.max_procs, self.max_threads, self.max_cpus = max_looms, max_procs, max_threads, max_cpus
@@ -551,6 +564,13 @@ def history(draw, prof):
         th = ths[draw(st.integers(0, len(ths) - 1))]
         wild = (step == bad_at)
         if th.state == R.ST_UNKNOWN and not wild:
+            # quantities that are shown "always" may change before the thread's first execute
+            early = [k for k in ("kernel", "flush") if k in prof.kinds and (k != "kernel" or "K" in models)]
+            if early and draw(st.integers(0, 2)) == 0:
+                p = propose(draw, w, th, draw(st.sampled_from(early)), models, False)
+                if p is not None and p[0] != "@":
+                    w.legal(th, *p)
+                    continue
             w.legal(th, *prop_execute(draw, w, th, prefer_free=draw(st.integers(0, 3)) != 0))
             continue
         if th.state == R.ST_DEAD and not wild:
@@ -568,7 +588,13 @@ def history(draw, prof):
     if (w.rejected is None or w.soft) and mode != "noend":
         unwind = prof.unwind if prof.unwind is not None else draw(st.booleans())
         w.close_all(unwind=unwind)
+    elif w.rejected is None and mode == "noend" and draw(st.booleans()):
+        # only some threads (often a single one, anywhere in the system) are left unfinished
+        k = draw(st.sampled_from([1, 1, 1, 2, len(ths)]))
+        leave = draw(st.lists(st.sampled_from(ths), min_size=1, max_size=max(1, min(k, len(ths))), unique_by=id))
+        w.close_all(unwind=draw(st.booleans()), leave=leave)
     flags = list(prof.flags) if prof.flags is not None else (["-l"] if lint else [])
+    flags += [f for f in getattr(prof, "extra_flags", ()) if f not in flags]
     tr["_flags"] = flags
     tr["_mode"] = mode
     tr["_excluded_known"] = getattr(w, "excluded_known", 0)
